@@ -370,13 +370,15 @@ impl StreamsState {
         }
         self.on_stream_frame(!stopped, id);
 
-        // Update connection-level flow control
-        Ok(if bytes_read != final_offset.into_inner() {
+        // Update connection-level flow control. A stopped stream has already been issued credit
+        // for everything up to `end`, by `stop` and as later frames arrived.
+        let credited = if stopped { end } else { bytes_read };
+        Ok(if credited != final_offset.into_inner() {
             // bytes_read is always <= end, so this won't underflow.
             self.data_recvd = self
                 .data_recvd
                 .saturating_add(u64::from(final_offset) - end);
-            self.add_read_credits(u64::from(final_offset) - bytes_read)
+            self.add_read_credits(u64::from(final_offset) - credited)
         } else {
             ShouldTransmit(false)
         })
